@@ -6,20 +6,32 @@ import ExoVerif.Props.C18
 `Gen.dogfoodPrefixPairs` pairs, for each `GetAll*` used by x/dogfood ExportGenesis, the byte prefix it iterates with the
 prefix the setter of the same collection writes (evaluated from the iota block of x/dogfood/types/keys.go);
 `Gen.genesisExportCalls` / `Gen.genesisInitCalls` list the keeper methods each module's ExportGenesis / InitGenesis
-calls. A repaired prefix, a new exported collection (e.g. hold counts) or a dropped one changes a fact and breaks the
-corresponding theorem: the model must then be brought in line.
+calls. A changed prefix, a new exported collection or a dropped one changes a fact and breaks the corresponding theorem: the
+model must then be brought in line. (State after the F-18a / F-18b repairs; the pre-repair values are kept in
+`preFixPrefixes` for the regression theorems.)
 -/
 namespace ExoVerif.Genesis
 open ExoVerif.Gen
 
-/-- the model's `codePrefixes` are the regenerated ones (F-18a: the 2nd and 3rd exporter iterate prefix 3, not 5 / 6) -/
+/-- the model's `codePrefixes` are the regenerated ones: since the F-18a repair every exporter iterates the prefix its
+    collection is written under (3/3, 5/5, 6/6) -/
 theorem C18_tie_dogfood_prefix_pairs :
     dogfoodPrefixPairs = [("GetAllOptOutsToFinish", codePrefixes.optOutsIter, codePrefixes.optOutsSet),
                           ("GetAllConsAddrsToPrune", codePrefixes.prunesIter, codePrefixes.prunesSet),
                           ("GetAllUndelegationsToMature", codePrefixes.maturesIter, codePrefixes.maturesSet)] := by decide
 
-/-- the property needs every exporter to read what its setter writes; on the unchanged code this is false -/
-theorem C18_tie_prefix_pairs_disagree : ¬ (∀ p ∈ dogfoodPrefixPairs, p.2.1 = p.2.2) := by decide
+/-- what the property needs: every exporter reads what its setter writes. Re-introducing F-18a (an exporter iterating
+    another collection's prefix) makes this false. -/
+theorem C18_tie_prefix_pairs_agree : ∀ p ∈ dogfoodPrefixPairs, p.2.1 = p.2.2 := by decide
+
+/-- pre-repair regression: the pairs of `preFixPrefixes` (3/3, 3/5, 3/6) do NOT agree -/
+theorem C18_tie_regression_prefix_pairs :
+    ¬ (∀ p ∈ [("GetAllOptOutsToFinish", preFixPrefixes.optOutsIter, preFixPrefixes.optOutsSet),
+              ("GetAllConsAddrsToPrune", preFixPrefixes.prunesIter, preFixPrefixes.prunesSet),
+              ("GetAllUndelegationsToMature", preFixPrefixes.maturesIter, preFixPrefixes.maturesSet)], p.2.1 = p.2.2) := by decide
+
+/-- F-18b repair: x/dogfood InitGenesis re-places the holds — the model's `rebuildHolds` flag is the regenerated one -/
+theorem C18_tie_holds_rebuilt : dogfoodInitRebuildsHolds = codePrefixes.rebuildHolds := by decide
 
 /-- collections exported by the modelled modules (no hold counts in delegation, no reverse key index in operator,
     params only for mint and fee distribution) -/
